@@ -152,7 +152,7 @@ def payload_json(n_completed=0, n_updated=0, pad=0):
 
 def seal(pt, nonce, aes_key=AES_KEY):
     """the real encrypt with a scripted nonce (get_random_bytes of the aes module replaced)."""
-    old = aes_mod.get_random_bytes
+    old = getattr(aes_mod, 'get_random_bytes', None)
     aes_mod.get_random_bytes = lambda n: (nonce * (n // len(nonce) + 1))[:n]
     try:
         return bytes(BoboDistributedCryptoAES(aes_key).encrypt(pt))
@@ -690,6 +690,11 @@ def oracle_conn(case, conn, obs, rig, items_before):
         if obs['after'] != obs['before']:
             bad('truncated-changed-state', 'peer table / queue changed by a truncated message')
         fr = first_reach(conn['clock'], conn['accepted'])
+        if fr is not None and obs['clock_used'] == fr + 1 and obs['reads'] > fr and not obs['ended_silent']:
+            # the clock said "time is up" before the (fr+1)-th read: every read after that keeps the listener on a connection
+            # it has already given up (and waits up to a whole read timeout each)
+            bad('read-after-give-up', 'the timeout was reached after %d reads, yet the handler read %d times from the connection '
+                                      'before leaving it' % (fr, obs['reads']))
         if fr is not None and obs['clock_used'] > fr + 1:
             bad('give-up-too-late', 'handler consumed %d clock readings, the timeout was reached at reading %d'
                 % (obs['clock_used'], fr + 1))
